@@ -159,7 +159,7 @@ func (g *Gen) enterLoop(li *loopInfo, ins []inEdge, fwdPreds []*ssa.BasicBlock) 
 		}
 		hdrEnv[names[pi]] = v
 		// the source variable the phi stands for has the phi's value at the header
-		if gn := "$local:" + phi.Comment; g.ghostSorts[gn] != "" && g.ghostSorts[gn] == g.st.sortOf(phi.Type()) {
+		if gn := "$local:" + phi.Comment; !g.localAmbig[phi.Comment] && g.ghostSorts[gn] != "" && g.ghostSorts[gn] == g.st.sortOf(phi.Type()) {
 			g.cur.ghost[gn] = c
 		}
 	}
@@ -297,7 +297,11 @@ func (g *Gen) loopMods(li *loopInfo) (comps []string, ghosts []string) {
 				// the loop (a header phi or a body instruction)
 				if id, ok := dr.Expr.(*ast.Ident); ok && id.Name != "_" {
 					if xi, ok := dr.X.(ssa.Instruction); ok && li.blocks[xi.Block()] {
-						gs["$local:"+id.Name] = true
+						if info := g.eng.typesInfo(g.fn); info != nil {
+							if nm := g.localName[info.ObjectOf(id)]; nm != "" {
+								gs["$local:"+nm] = true
+							}
+						}
 					}
 				}
 			}
